@@ -127,6 +127,16 @@ class Fn:
         return self._prom[n]
 
 
+CARRIER = {"store", "pq"}   # field names that hold the Store / a queue (extended by every loaded Program)
+
+
+def re_strip_refs(s):
+    s = s.strip()
+    while s.startswith("&") or s.startswith("*"):
+        s = _re.sub(r"^(&('[a-z_]+ )?(mut )?|\*(mut|const) )", "", s).strip()
+    return s
+
+
 class Program:
     def __init__(self, path, config):
         self.config = config
@@ -200,6 +210,32 @@ class Program:
         self._closure_sites = None
         self._fx = None
         self._vp0 = None
+        CARRIER.update(self.carrier_fields)
+
+    @property
+    def carrier_fields(self):
+        """names of the fields of crate types that hold (a reference to) the Store or one of the queues: `store`, and the
+        `pq` of the iterator structs under whatever name they have now"""
+        if getattr(self, "_carrier", None) is None:
+            out = {"store"}
+            want = ("store::Store", "priority_queue::PriorityQueue", "double_priority_queue::DoublePriorityQueue")
+
+            def head(ty):
+                while isinstance(ty, dict) and ty.get("k") in ("ref", "ptr") and ty.get("inner"):
+                    ty = ty["inner"]
+                return ty
+            for a in self.j["adts"]:
+                for v in a.get("variants", []):
+                    for f in v.get("fields", []):
+                        ty = head(f.get("ty") or {})
+                        if isinstance(ty, dict) and ty.get("k") == "adt" and ty.get("path") in want:
+                            out.add(f["name"])
+                        else:
+                            sdesc = re_strip_refs((f.get("ty") or {}).get("s") or "")
+                            if sdesc.split("<")[0] in want:
+                                out.add(f["name"])
+            self._carrier = out
+        return self._carrier
 
     @property
     def vp0(self):
@@ -347,6 +383,26 @@ class CFG:
         self._dom = None
         self._loops = None
 
+    def _mentions(self, L):
+        """how often local L is mentioned in the body (any role)"""
+        if not hasattr(self, "_mention_count"):
+            cnt = {}
+
+            def walk_(x):
+                if isinstance(x, dict):
+                    if "local" in x and "proj" in x:
+                        cnt[x["local"]] = cnt.get(x["local"], 0) + 1
+                    for v in x.values():
+                        walk_(v)
+                elif isinstance(x, list):
+                    for v in x:
+                        walk_(v)
+            for b in self.fn.blocks:
+                walk_(b["stmts"])
+                walk_(b["term"])
+            self._mention_count = cnt
+        return self._mention_count.get(L, 0)
+
     def _thread_jumps(self):
         """jump threading for the boolean-temporary idioms (`a && b`, `while if a { b } else { false }`):
         a block P that ends by assigning a boolean literal to a temporary L and jumping to an empty block J whose
@@ -359,13 +415,26 @@ class CFG:
             rounds += 1
             for j in range(self.n):
                 bj = fn.blocks[j]
-                if bj["cleanup"] or bj["stmts"] or bj["term"]["k"] != "switch":
+                if bj["cleanup"] or bj["term"]["k"] != "switch":
                     continue
                 d = bj["term"]["discr"]
                 if d["k"] not in ("copy", "move") or d["place"]["proj"]:
                     continue
                 L = d["place"]["local"]
-                if fn.locals[L]["name"]:
+                if bj["stmts"]:
+                    # `let named = a && b; if !named { return }`: the join block copies the named boolean into the temporary it
+                    # switches on (a `!` is folded into the switch targets by the compiler).  The copies are dead elsewhere.
+                    okc = True
+                    for s in reversed(bj["stmts"]):
+                        if s["k"] != "assign" or s["place"]["proj"] or s["place"]["local"] != L or fn.locals[L]["name"] \
+                                or s["rv"]["k"] != "use" or s["rv"]["op"].get("k") not in ("copy", "move") or s["rv"]["op"]["place"]["proj"] \
+                                or fn.locals[L]["ty"]["s"] != "bool" or self._mentions(L) != 2:
+                            okc = False
+                            break
+                        L = s["rv"]["op"]["place"]["local"]
+                    if not okc:
+                        continue
+                elif fn.locals[L]["name"]:
                     continue
                 for p in list(self.pred[j]):
                     bp = fn.blocks[p]
@@ -1027,6 +1096,9 @@ def mk_some(x):
         y = y[2]
     if y[0] == "adt" and y[1] in ("std::option::Option", "std::result::Result") and y[2] in ("Some", "Ok") and len(y[3]) == 1:
         return y[3][0]
+    # the success payload of `a.checked_sub(b)` / `a.checked_add(b)` is a - b / a + b
+    if y[0] == "call" and len(y[2]) == 2 and y[1] in ("usize::checked_sub", "usize::checked_add"):
+        return ("binop", "Sub" if y[1].endswith("checked_sub") else "Add", y[2][0], y[2][1])
     if y[0] in ("phi", "mu"):
         alts = y[4] if y[0] == "phi" else y[1]
         pay = []
